@@ -106,6 +106,25 @@ def check(ctx, items):
             ctx.violation("Spec.C15 judge: the public JWK / thumbprint input of a %s key is not the RFC form of its raw "
                           "components" % it["type"], {"type": it["type"], "key_pem": it["k"]["pem"],
                                                       "impl_jwk": it["k"]["jwk"], "raw": it["k"]["raw"]})
+    # The same keys inside the daemon's own build (acme_common as compiled INTO acmed: cargo feature
+    # unification and the daemon's dependency set can differ from a stand-alone build of the library):
+    # JWK text and thumbprint input from the in-crate probe must be the ones just judged.
+    per_type = {}
+    sub = []
+    for it in good:
+        n = per_type.get(it["type"], 0)
+        if n < (150 if ctx.quick() else 3000):
+            per_type[it["type"]] = n + 1
+            sub.append(it)
+    inproc = vlib.probe([{"op": "keyinfo", "key_pem": it["k"]["pem"]} for it in sub], timeout=3000)
+    for it, r in zip(sub, inproc):
+        ctx.count("in-daemon:" + it["type"])
+        if r.get("jwk") != it["k"]["jwk"] or r.get("thumbprint_input") != it["k"]["thumbprint_input"]:
+            ctx.violation("inside the daemon's build the public JWK / thumbprint input of a %s key is not the RFC form "
+                          "(it is when acme_common is built alone)" % it["type"],
+                          {"type": it["type"], "key_pem": it["k"]["pem"], "daemon": r,
+                           "library_jwk": it["k"]["jwk"], "library_thumbprint_input": it["k"]["thumbprint_input"]})
+    ctx.traces += len(sub)
     splits = vlib.model([{"op": "sig_split", "sig_hex": it["sig"].get("sig_hex", ""), "width": WIDTH.get(it["type"], 0)}
                          if it["type"] in WIDTH else {"op": "ping"} for it in good], timeout=3000)
     for it, m, sp in zip(good, mod, splits):
